@@ -85,7 +85,23 @@ func c09Gen(t *rapid.T) MultiCase {
 			}
 			observer()
 		}
+		if rapid.IntRange(0, 5).Draw(t, "stray") == 0 {
+			// an EXEC / DISCARD / nested MULTI that is an error leaves the transaction state as it was: the watch
+			// set before it still guards the transaction that follows
+			wk := pick(t, "swk", "a", "l")
+			add(0, "WATCH", wk)
+			add(0, pick(t, "strayend", "EXEC", "DISCARD"))
+			if rapid.Bool().Draw(t, "touch") {
+				add(1, pick(t, "touchcmd", []string{"SET", "a", "changed"}, []string{"RPUSH", "l", "more"}, []string{"DEL", wk}, []string{"APPEND", "a", "x"}, []string{"LPOP", "l"})...)
+			}
+		}
 		add(0, "MULTI")
+		if rapid.IntRange(0, 7).Draw(t, "nested") == 0 {
+			add(0, "MULTI") // nested MULTI: an error, the open transaction goes on
+		}
+		if rapid.IntRange(0, 7).Draw(t, "watchinside") == 0 {
+			add(0, "WATCH", "b") // WATCH inside MULTI: an error, the open transaction goes on
+		}
 		for i := rapid.IntRange(0, 6).Draw(t, "queued"); i > 0; i-- {
 			add(0, c09Queued(t)...)
 			observer()
